@@ -73,9 +73,19 @@ pub mod prepared {
 
     /// `RawPreparedStatement::new(..).into_prepared_statement()` + `set_partitioner_name`.
     pub fn statement_from_prepared(prepared: Prepared, cdc: bool) -> PreparedStatement {
+        statement_from_prepared_lwt(prepared, cdc, false)
+    }
+
+    /// As `statement_from_prepared`, with the `is_lwt` flag of the PREPARED response
+    /// (`PreparedStatement::is_confirmed_lwt`).
+    pub fn statement_from_prepared_lwt(
+        prepared: Prepared,
+        cdc: bool,
+        is_lwt: bool,
+    ) -> PreparedStatement {
         let stmt = Statement::new("verif");
         let mut ps =
-            RawPreparedStatement::new(&stmt, prepared, false, None).into_prepared_statement();
+            RawPreparedStatement::new(&stmt, prepared, is_lwt, None).into_prepared_statement();
         ps.set_partitioner_name(if cdc {
             PartitionerName::CDC
         } else {
